@@ -584,8 +584,8 @@ type monitor struct {
 	// errSlack: refusals that a server may or may not count against the
 	// connection's budget of malformed commands (a line the model takes for a
 	// well-formed command but that a stricter parser refuses as malformed)
-	errSlack int
-	pendingBegin  bool // transfer open, its Data call has not been seen to begin yet
+	errSlack     int
+	pendingBegin bool // transfer open, its Data call has not been seen to begin yet
 
 	nNew, nMail, nRcpt, nData, nSASL int
 
